@@ -15,10 +15,16 @@ JSON encoding of arguments:
   {"itensor": nested ints, "how": ...}       integer index tensor
   {"slice": [a, b, c]}  "None"  "Ellipsis"  {"tuple": [...]}  [...] (list)  {"dtype": name}  {"complex": [re, im]}
   numbers / booleans as JSON numbers / booleans ; {"none": true} = python None passed as an argument value
+  {"call": {kind, name, args, kwargs}, "pick": i|null, "star": bool}   nested call evaluated first (its result, or element i of
+                                              its result, is the argument; star = the result tuple is spliced into the arguments)
+  {"range": n} python range(n) ; {"npdtype": name} numpy.<name> (a numpy scalar type used as a dtype)
 call: {"kind": ext|method|attr|binop|neg|getitem|setitem|inplace|truth|builtin|promote|scalar_promote,
        "name": ..., "args": [...], "kwargs": {...}}
 prediction: {"raises": cls} | {"out_of_subset": msg} | {"sym_crash": msg} | {"pyvalue": v} |
             {"shape", "dtype", "values", "is_view_of_input", "same_object", "contiguous_claim"} | {"one_of": [...]}
+            tensor predictions may also carry "lib" (torch|numpy), "ivalues" (integer payload `ival`: per entry an int, a list of
+            the values the path condition allows, or null = unconstrained) and "claims" (["perm_matrix"]);
+            {"tuple": [pred, ...]} for tuple results ; {"pyvalue_set": [ints]} for an integer known only up to a set
 """
 import sys
 import os
@@ -72,6 +78,30 @@ class PyNone(object):
     pass
 
 
+class Sub(object):
+    """a nested call: evaluated first, its result (or element `pick` of it) is the argument ; star: splice the result tuple"""
+
+    def __init__(self, kind, name, args, kwargs=None, pick=None, star=False):
+        self.call = {'kind': kind, 'name': name, 'args': list(args), 'kwargs': dict(kwargs or {})}
+        self.pick = pick
+        self.star = star
+
+
+class Rng(object):
+    """python range(n) ; how = 'builtin' (the engine's builtin range) | 'sym' (the engine's SymRange, what a symbolic bound gives)"""
+
+    def __init__(self, n, how='builtin'):
+        self.n = n
+        self.how = how
+
+
+class NPDT(object):
+    """numpy.<name> used as a dtype argument (numpy.float64, ...)"""
+
+    def __init__(self, name):
+        self.name = name
+
+
 def enc(a):
     if isinstance(a, TRef):
         d = {'t': a.name}
@@ -84,6 +114,12 @@ def enc(a):
         return {'dtype': a.name}
     if isinstance(a, PyNone):
         return {'none': True}
+    if isinstance(a, Sub):
+        return {'call': enc_call(a.call), 'pick': a.pick, 'star': bool(a.star)}
+    if isinstance(a, Rng):
+        return {'range': a.n}
+    if isinstance(a, NPDT):
+        return {'npdtype': a.name}
     if a is None:
         return 'None'
     if a is Ellipsis:
@@ -101,6 +137,11 @@ def enc(a):
     raise TypeError('cannot encode %r' % (a,))
 
 
+def enc_call(call):
+    return {'kind': call['kind'], 'name': call.get('name'), 'args': [enc(a) for a in call['args']],
+            'kwargs': {k: enc(v) for k, v in call['kwargs'].items()}}
+
+
 # ------------------------------------------------------------------------------------------------
 # concrete evaluation
 # ------------------------------------------------------------------------------------------------
@@ -112,12 +153,16 @@ class Ev(prover.Evaluator):
     def __init__(self, seed, kinds):
         prover.Evaluator.__init__(self, {}, seed, complex_mode=any(k[0] == 'complex' for k in kinds.values()))
         self.kinds = kinds
+        self.foreign_consts = set()
+        self.foreign = False     # a fresh symbol of the engine (name!id: opaque values, unknown positions) was given a made-up value
 
     def _uf(self, name, args):
         key = (name,) + tuple(args)
         if key in self.uf:
             return self.uf[key]
         v = prover.Evaluator._uf(self, name, args)
+        if '!' in name and name not in self.kinds:
+            self.foreign = True
         kind, nonzero = self.kinds.get(name, ('real', False))
         if kind != 'complex' and isinstance(v, CFrac):
             v = v.re
@@ -134,6 +179,11 @@ class Ev(prover.Evaluator):
                 return _fn('sqrt', self.ev(e.arg(0)))
             if e.decl().eq(ABS):
                 return _fn('abs', self.ev(e.arg(0)))
+        if z3.is_const(e) and e.decl().kind() == z3.Z3_OP_UNINTERPRETED:
+            n = e.decl().name()
+            if '!' in n and (n not in self.env or n in self.foreign_consts):
+                self.foreign_consts.add(n)
+                self.foreign = True
         return prover.Evaluator.ev(self, e)
 
     def value(self, t):
@@ -189,10 +239,12 @@ def dump_tensor(ev, t, cplx=None):
 # symbolic execution of one case
 # ------------------------------------------------------------------------------------------------
 
-def manual_itensor(data):
-    """an int64 STensor with concrete entries (nested list), ival given by an If-chain"""
+def manual_itensor(data, dtype='int64'):
+    """an int64 (int32) STensor with concrete entries (nested list), ival given by an If-chain"""
     def shape_of(d):
-        return [len(d)] + shape_of(d[0]) if isinstance(d, list) else []
+        if isinstance(d, list):
+            return [len(d)] + (shape_of(d[0]) if d else [])
+        return []
     shp = shape_of(data)
     flat = []
     for idx in itertools.product(*[range(s) for s in shp]):
@@ -211,8 +263,8 @@ def manual_itensor(data):
             else:
                 cond = z3.And(*[T.to_int(i) == p for i, p in zip(cidx, pos)]) if pos else z3.BoolVal(True)
                 e = z3.If(cond, x, e)
-        return z3.simplify(e)
-    return T.STensor([T.Axis(s) for s in shp], 'int64', lambda idx: Term.of(to_real(ival(idx))), ival=ival)
+        return z3.simplify(e) if e is not None else z3.IntVal(0)
+    return T.STensor([T.Axis(s) for s in shp], dtype, lambda idx: Term.of(to_real(ival(idx))), ival=ival)
 
 
 class Ctx(object):
@@ -234,11 +286,23 @@ class Ctx(object):
                 self.first = t
             return t
         if isinstance(a, ITensor):
-            if a.how == 'manual':
-                return manual_itensor(a.data)
+            if a.how in ('manual', 'manual32'):
+                t = manual_itensor(a.data, 'int64' if a.how == 'manual' else 'int32')
+                if self.first is None:
+                    self.first = t
+                return t
             if a.how == 'arange':
                 return O.call_ext(ex, 'torch.arange', [a.data], {})
             return O.call_ext(ex, 'torch.tensor', [a.data], {})
+        if isinstance(a, Sub):
+            r = run_call(self, a.call)
+            return r[a.pick] if a.pick is not None else r
+        if isinstance(a, Rng):
+            if a.how == 'sym':
+                return O.SymRange(a.n)
+            return O.call_builtin(ex, O.BI('range'), [a.n], {})
+        if isinstance(a, NPDT):
+            return O.ext_attr(ex, interp.Ext('numpy'), a.name)
         if isinstance(a, DT):
             return interp.DType(a.name)
         if isinstance(a, PyNone):
@@ -253,7 +317,13 @@ class Ctx(object):
 def run_call(ctx, call):
     ex = ctx.ex
     kind, name = call['kind'], call.get('name')
-    args = [ctx.dec(a) for a in call.get('args', [])]
+    args = []
+    for a in call.get('args', []):
+        v = ctx.dec(a)
+        if isinstance(a, Sub) and a.star:
+            args.extend(v)
+        else:
+            args.append(v)
     kwargs = {k: ctx.dec(v) for k, v in call.get('kwargs', {}).items()}
     if kind == 'ext':
         return O.call_ext(ex, name, args, kwargs)
@@ -283,6 +353,103 @@ def run_call(ctx, call):
     raise ValueError(kind)
 
 
+def int_set(ex, e, lo=-8, hi=48, cap=24):
+    """the integer values the path condition allows for the z3 Int expression e: [v] when it is determined, a list of the feasible
+    values when there are at most `cap`, None when e is (practically) unconstrained"""
+    if isinstance(e, bool):
+        return [int(e)]
+    if isinstance(e, int):
+        return [e]
+    e = z3.simplify(e)
+    if z3.is_int_value(e):
+        return [e.as_long()]
+    pc = ex.pc
+    if pc.feasible(z3.Or(e < lo, e >= hi), mark=False):
+        return None
+    feas = [c for c in range(lo, hi) if pc.feasible(e == c, mark=False)]
+    if not feas or len(feas) > cap:
+        return None
+    return feas
+
+
+def dump_ivalues(ex, t):
+    """the integer payload of t: nested lists of int | [feasible ints] wrapped as {"in": [...]} | None ; all_exact flag"""
+    shape = [int(s) for s in t.shape]
+    exact = [True]      # every entry is a numeral by itself (no solver query needed): then the real-valued side is evaluated too
+
+    def rec(prefix, k):
+        if k == len(shape):
+            e = T.int_entry(t, list(prefix))
+            if not isinstance(e, int) and not z3.is_int_value(z3.simplify(e)):
+                exact[0] = False
+            vs = int_set(ex, e)
+            if vs is not None and len(vs) == 1:
+                return vs[0]
+            return None if vs is None else {'in': vs}
+        return [rec(prefix + [i], k + 1) for i in range(shape[k])]
+    return rec([], 0), exact[0]
+
+
+def describe(ctx, ev, res):
+    """JSON prediction for a result value of the symbolic engine"""
+    ex = ctx.ex
+    first = ctx.first
+    if isinstance(res, tuple) and len(res) == 2 and res[0] == 'truth':
+        b = res[1]
+        return {'pyvalue': bool(ev.ev(b)) if isinstance(b, z3.ExprRef) else bool(b)}
+    if isinstance(res, tuple) and len(res) == 2 and res[0] == 'py':
+        return {'pyvalue': res[1]}
+    if isinstance(res, T.STensor):
+        view = None
+        if first is not None:
+            view = res.storage is first.storage
+            if not view and getattr(res, 'maybe_view_of', None) is not None:
+                view = None
+        out = {'shape': [int(s) for s in res.shape], 'dtype': res.dtype}
+        exact = True
+        if res.ival is not None:
+            out['ivalues'], exact = dump_ivalues(ex, res)
+        if res._val is None or not exact:
+            out['values'] = None       # opaque, or integer entries known only up to a set (compared through ivalues)
+        else:
+            ev.foreign = False
+            out['values'] = dump_tensor(ev, res)
+            if ev.foreign:
+                out['values'] = None   # the values depend on symbols the engine leaves open (e.g. a gather through unknown positions)
+        out['is_view_of_input'] = view
+        out['same_object'] = (res is first) if first is not None else None
+        out['contiguous_claim'] = bool(res.contiguous)
+        out['lib'] = res.lib
+        if res.ghost.get('perm'):
+            out['claims'] = ['perm_matrix']
+        return out
+    if isinstance(res, interp.DType):
+        return {'pyvalue': 'dtype:' + str(res)}
+    if isinstance(res, bool) or res is None:
+        return {'pyvalue': res}
+    if isinstance(res, (int, float)):
+        return {'pyvalue': res}
+    if isinstance(res, z3.ExprRef):
+        v = ev.ev(res)
+        return {'pyvalue': int(v) if isinstance(v, int) else float(v)}
+    if isinstance(res, (tuple, list)) and all(isinstance(x, int) for x in res):
+        return {'pyvalue': [int(x) for x in res]}
+    if isinstance(res, (tuple, list)) and res and all(isinstance(x, (T.STensor, T.SymScalar)) for x in res):
+        return {'tuple': [describe(ctx, ev, x) for x in res]}
+    if isinstance(res, T.SymScalar):
+        if res.kind == 'int':
+            vs = int_set(ex, res.expr)
+            if vs is None:
+                return {'out_of_subset': 'unconstrained symbolic integer result'}
+            return {'pyvalue': vs[0]} if len(vs) == 1 else {'pyvalue_set': vs}
+        ev.foreign = False
+        v = float(ev.ev(res.real()))
+        if ev.foreign:
+            return {'out_of_subset': 'symbolic scalar result with an open value'}
+        return {'pyvalue': v}
+    return {'out_of_subset': 'result of unsupported kind %s' % type(res).__name__}
+
+
 def predict_once(case, seed, prefix):
     ex = interp.Exec(prefix=prefix)
     kinds = {}
@@ -294,40 +461,7 @@ def predict_once(case, seed, prefix):
         ctx = Ctx(ex, case)
         res = run_call(ctx, case['call'])
         first = ctx.first
-        if isinstance(res, tuple) and len(res) == 2 and res[0] == 'truth':
-            b = res[1]
-            out = {'pyvalue': bool(ev.ev(b)) if isinstance(b, z3.ExprRef) else bool(b)}
-        elif isinstance(res, tuple) and len(res) == 2 and res[0] == 'py':
-            out = {'pyvalue': res[1]}
-        elif isinstance(res, T.STensor):
-            view = None
-            if first is not None:
-                view = res.storage is first.storage
-                if not view and getattr(res, 'maybe_view_of', None) is not None:
-                    view = None
-            out = {'shape': [int(s) for s in res.shape], 'dtype': res.dtype}
-            if res._val is None:
-                out['values'] = None
-            else:
-                out['values'] = dump_tensor(ev, res)
-            out['is_view_of_input'] = view
-            out['same_object'] = (res is first) if first is not None else None
-            out['contiguous_claim'] = bool(res.contiguous)
-        elif isinstance(res, bool) or res is None:
-            out = {'pyvalue': res}
-        elif isinstance(res, int):
-            out = {'pyvalue': res}
-        elif isinstance(res, float):
-            out = {'pyvalue': res}
-        elif isinstance(res, z3.ExprRef):
-            v = ev.ev(res)
-            out = {'pyvalue': int(v) if isinstance(v, int) else float(v)}
-        elif isinstance(res, (tuple, list)) and all(isinstance(x, int) for x in res):
-            out = {'pyvalue': [int(x) for x in res]}
-        elif isinstance(res, T.SymScalar):
-            out = {'pyvalue': float(ev.ev(res.real()))}
-        else:
-            out = {'out_of_subset': 'result of unsupported kind %s' % type(res).__name__}
+        out = describe(ctx, ev, res)
     except T.PyRaise as e:
         out = {'raises': e.cls}
     except OutOfSubset as e:
@@ -1411,6 +1545,843 @@ def g_truth(rng, tier):
     yield C('truth', None, [A], A=([], I64))
     while True:
         yield C('truth', None, [A], A=(rshape(rng, 0, 3, p1=0.7), rdtype(rng)))
+
+
+# ------------------------------------------------------------------------------------------------
+# extension: contracts added for the cross approximation (integer index tensors, LU pivots, sort / topk / unravel_index,
+# stacking), the conjugate bit, lossy casts, as_tensor / finfo / promote_types, predicates, single precision arithmetic.
+# All generators below are finite lists (all_cases): hand-written cores, followed by a few random instances.
+# ------------------------------------------------------------------------------------------------
+
+def IT(data, how='manual'):
+    return ITensor(data, how)
+
+
+def xt(name, *args, **kw):
+    return Sub('ext', name, list(args), kw)
+
+
+def mt(name, obj, *args, **kw):
+    return Sub('method', name, [obj] + list(args), kw)
+
+
+def gi(obj, idx):
+    return Sub('getitem', None, [obj, idx])
+
+
+def bo(op, a, b):
+    return Sub('binop', op, [a, b])
+
+
+def i_ones(*shape, **kw):
+    return xt('torch.ones', *shape, dtype=DT(kw.get('dtype', I64)))
+
+
+def i_zeros(*shape, **kw):
+    return xt('torch.zeros', *shape, dtype=DT(kw.get('dtype', I64)))
+
+
+def i_arange(n, dtype=I64):
+    return xt('torch.arange', n, dtype=DT(dtype))
+
+
+def finite(f):
+    f.all_cases = True
+    return f
+
+
+def _rand_idata(rng, shape, lo=-4, hi=9):
+    if not shape:
+        return rng.randint(lo, hi)
+    return [_rand_idata(rng, shape[1:], lo, hi) for _ in range(shape[0])]
+
+
+@gen('int.create')
+@finite
+def g_int_create(rng, tier):
+    yield C('ext', 'torch.ones', [3], {'dtype': DT(I64)})
+    yield C('ext', 'torch.zeros', [(2, 3)], {'dtype': DT(I64)})
+    yield C('ext', 'torch.zeros', [(1, 0)], {'dtype': DT(I64)})
+    yield C('ext', 'torch.ones', [[2, 2]], {'dtype': DT('int32')})
+    yield C('ext', 'torch.ones', [[]], {'dtype': DT(I64)})
+    yield C('ext', 'torch.arange', [4], {'dtype': DT(I64)})
+    yield C('ext', 'torch.arange', [0], {'dtype': DT(I64)})
+    yield C('ext', 'torch.arange', [3], {'dtype': DT('int32')})
+    yield C('ext', 'torch.arange', [3], {'dtype': DT(F32)})
+    yield C('ext', 'torch.arange', [3.0])
+    yield C('ext', 'torch.arange', [2.5])
+    yield C('ext', 'torch.arange', [3], {'dtype': DT(I64), 'device': PyNone()})
+    yield C('ext', 'torch.kron', [i_ones(2), i_arange(3)])
+    yield C('ext', 'torch.kron', [i_arange(2), i_arange(3)])
+    yield C('ext', 'torch.kron', [IT([1, 2]), IT([3, 4, 5])])
+    yield C('ext', 'torch.kron', [IT([2, -1]), i_ones(1)])
+    yield C('ext', 'torch.kron', [i_arange(3), i_zeros(0)])
+    yield C('ext', 'torch.kron', [i_ones(2, dtype='int32'), i_arange(2)])
+    yield C('ext', 'torch.kron', [i_arange(2), A], A=([3], F64))
+    # the index grids of torchtt/interpolate.py:  reshape(kron(kron(ones(r1), arange(n1)), kron(ones(n2), ones(r2))), [-1, 1])
+    yield C('ext', 'torch.reshape', [xt('torch.kron', xt('torch.kron', i_ones(2), i_arange(3)), xt('torch.kron', i_ones(2), i_ones(1))), [-1, 1]])
+    yield C('ext', 'torch.kron', [xt('torch.kron', i_ones(2), i_ones(2)), xt('torch.kron', i_arange(2), i_ones(2))])
+    yield C('ext', 'torch.kron', [xt('torch.kron', i_arange(2), i_ones(2)), xt('torch.kron', i_ones(2), i_arange(2))])
+    for _ in range(4 if tier == 'quick' else 12):
+        a = rng.choice([i_ones(rng.randint(1, 3)), i_arange(rng.randint(1, 4)), IT(_rand_idata(rng, [rng.randint(1, 3)]))])
+        b = rng.choice([i_ones(rng.randint(1, 3)), i_arange(rng.randint(1, 4)), IT(_rand_idata(rng, [rng.randint(1, 3)]))])
+        yield C('ext', 'torch.kron', [a, b])
+
+
+M23 = [[1, 2, 3], [4, 5, 6]]
+
+
+@gen('int.shape')
+@finite
+def g_int_shape(rng, tier):
+    yield C('ext', 'torch.reshape', [IT(M23), [3, 2]])
+    yield C('ext', 'torch.reshape', [IT(M23), [-1, 1]])
+    yield C('method', 'reshape', [IT(M23), [1, -1]])
+    yield C('method', 'reshape', [IT(M23), 6])
+    yield C('method', 'reshape', [IT([[1, 2, 3, 4], [5, 6, 7, 8], [9, 10, 11, 12]]), [2, 6]])
+    yield C('method', 'reshape', [i_arange(6), [2, 3]])
+    yield C('method', 'reshape', [i_arange(6), [4, 2]])
+    yield C('ext', 'torch.reshape', [mt('permute', IT(M23), [1, 0]), [6]])
+    yield C('method', 'permute', [IT(M23), [1, 0]])
+    yield C('ext', 'torch.permute', [IT([[[1, 2], [3, 4]], [[5, 6], [7, 8]], [[9, 10], [11, 12]]]), [2, 0, 1]])
+    yield C('method', 't', [IT(M23)])
+    yield C('method', 't', [IT([1, 2, 3])])
+    yield C('attr', 'T', [IT(M23)])
+    yield C('method', 'transpose', [IT(M23), 0, 1])
+    yield C('ext', 'torch.squeeze', [IT([[1, 2, 3]])])
+    yield C('method', 'squeeze', [IT([[1], [2]]), 1])
+    yield C('method', 'squeeze', [IT([[1], [2]]), 0])
+    yield C('ext', 'torch.unsqueeze', [IT([1, 2, 3]), 0])
+    yield C('method', 'unsqueeze', [IT([1, 2, 3]), -1])
+    yield C('method', 'unsqueeze', [IT(5), 0])
+    yield C('method', 'flatten', [IT(M23)])
+    yield C('method', 'clone', [IT(M23)])
+    yield C('method', 'to', [IT(M23), DT(F64)])
+    yield C('method', 'to', [IT(M23), DT('int32')])
+    yield C('method', 'numpy', [IT(M23)])
+    yield C('method', 'reshape', [mt('numpy', IT(M23)), [1, -1]])
+    yield C('method', 'reshape', [mt('numpy', IT(M23)), [-1, 1]])
+    yield C('method', 'sum', [IT(M23)])
+    yield C('method', 'sum', [IT(M23), 0])
+    yield C('ext', 'torch.prod', [IT([2, 3, 4])])
+    for _ in range(6 if tier == 'quick' else 20):
+        shape = rshape(rng, 1, 3, sizes=(1, 2, 3))
+        data = _rand_idata(rng, shape)
+        x = rng.random()
+        if x < 0.5:
+            tgt = _regroup_shape(rng, shape)
+            if rng.random() < 0.4 and tgt:
+                tgt[rng.randrange(len(tgt))] = -1
+            if rng.random() < 0.3:
+                rng.shuffle(tgt)
+            yield C('method', 'reshape', [IT(data), tgt])
+        elif x < 0.75:
+            p = list(range(len(shape)))
+            rng.shuffle(p)
+            yield C('method', 'permute', [IT(data), p])
+        else:
+            yield C('ext', 'torch.squeeze', [IT(data)])
+
+
+@gen('int.arith')
+@finite
+def g_int_arith(rng, tier):
+    yield C('binop', 'Add', [IT([1, 2, 3]), IT([10, 20, 30])])
+    yield C('binop', 'Sub', [IT([1, 2, 3]), 1])
+    yield C('binop', 'Sub', [5, IT([1, 2, 3])])
+    yield C('binop', 'Mult', [IT([1, 2, 3]), 3])
+    yield C('binop', 'Mult', [-2, IT([1, 2, 3])])
+    yield C('binop', 'Add', [IT([1, 2, 3]), 0])
+    yield C('binop', 'Mult', [IT([[1], [2]]), IT([3, 4, 5])])
+    yield C('binop', 'Add', [IT(M23), IT([10, 20, 30])])
+    yield C('binop', 'Add', [IT([1, 2, 3]), IT(7)])
+    yield C('binop', 'Mult', [IT(7), IT([1, 2, 3])])
+    yield C('binop', 'Add', [IT(3), IT(4)])
+    yield C('binop', 'Add', [IT(3), 4])
+    yield C('binop', 'Mult', [IT([1, 2, 3]), 2.5])
+    yield C('binop', 'Add', [IT([1, 2, 3]), 1.0])
+    yield C('binop', 'Div', [IT([1, 2, 3]), 2])
+    yield C('binop', 'Mult', [IT([1, 2, 3]), True])
+    yield C('binop', 'Add', [IT([1, 2, 3]), IT([1, 2])])
+    yield C('binop', 'Add', [IT([1, 2, 3]), IT([1, 2, 3], 'manual32')])
+    yield C('binop', 'Mult', [IT([1, 2, 3], 'manual32'), 2])
+    yield C('binop', 'Mult', [IT([1, 2, 3], 'manual32'), IT(2)])
+    yield C('binop', 'Mult', [i_arange(3), i_ones(3)])
+    yield C('binop', 'Add', [bo('Mult', i_arange(3), 4), i_arange(1)])
+    yield C('binop', 'Add', [i_arange(3), A], A=([3], F64))
+    yield C('binop', 'Mult', [IT([1, 2, 3]), A], A=([], F32))
+    yield C('neg', None, [IT([1, -2, 3])])
+    yield C('inplace', 'Add', [IT([1, 2, 3]), 1])
+    yield C('inplace', 'Mult', [IT([1, 2, 3]), IT([2, 2, 2])])
+    for _ in range(6 if tier == 'quick' else 20):
+        a, b = _bshapes(rng)
+        op = rng.choice(['Add', 'Sub', 'Mult'])
+        x = rng.random()
+        if x < 0.55:
+            yield C('binop', op, [IT(_rand_idata(rng, a)), IT(_rand_idata(rng, b))])
+        elif x < 0.8:
+            yield C('binop', op, [IT(_rand_idata(rng, a)), rng.randint(-3, 5)])
+        else:
+            yield C('binop', op, [rng.randint(-3, 5), IT(_rand_idata(rng, b))])
+
+
+Z10 = i_zeros((1, 0))
+Z02 = i_zeros((0, 2))
+
+
+@gen('int.cat/stack')
+@finite
+def g_int_cat(rng, tier):
+    r12, r12b, c21 = IT([[1, 2]]), IT([[7, 8]]), IT([[5], [6]])
+    v3, v2 = IT([1, 2, 3]), IT([8, 9])
+    yield C('ext', 'torch.cat', [[IT(M23), IT([[7, 8, 9]])], 0])
+    yield C('ext', 'torch.cat', [[IT(M23), c21], 1])
+    yield C('ext', 'torch.cat', [(v3, v2)])
+    yield C('ext', 'torch.cat', [[v3, v2], -1])
+    yield C('ext', 'torch.concat', [(IT(M23), c21), 1])
+    yield C('ext', 'torch.concat', [[IT(M23), c21]], {'dim': 1})
+    yield C('ext', 'torch.concat', [[IT(M23), c21]], {'axis': 1})
+    yield C('ext', 'torch.concat', [(c21, c21, c21, c21), 1])
+    yield C('ext', 'torch.cat', [[Z10, r12], 1])
+    yield C('ext', 'torch.cat', [[r12, Z10], 1])
+    yield C('ext', 'torch.cat', [[Z10, Z10], 1])
+    yield C('ext', 'torch.cat', [[Z10, r12], 0])
+    yield C('ext', 'torch.cat', [[Z02, r12], 0])
+    yield C('ext', 'torch.cat', [[i_zeros(0), v3], 0])
+    yield C('ext', 'torch.cat', [[i_zeros(0), r12], 1])
+    yield C('ext', 'torch.cat', [[v3, IT([1, 2], 'manual32')], 0])
+    yield C('ext', 'torch.cat', [[v3, A], 0], A=([2], F64))
+    for lib in ('torch', 'numpy'):
+        H, V = lib + '.hstack', lib + '.vstack'
+        yield C('ext', H, [(v3, v2)])
+        yield C('ext', H, [[IT(M23), c21]])
+        yield C('ext', H, [(Z10, r12)])
+        yield C('ext', H, [(r12, Z10)])
+        yield C('ext', H, [(Z10, Z10)])
+        yield C('ext', H, [(i_zeros(0), v3)])
+        yield C('ext', H, [(v3, r12)])
+        yield C('ext', H, [(IT(M23), IT([[1], [2], [3]]))])
+        yield C('ext', H, [(IT(4), IT(5))])
+        yield C('ext', H, [(v3,)])
+        yield C('ext', H, [(A, c21)], A=([2, 2], F64))
+        yield C('ext', V, [(v3, IT([4, 5, 6]))])
+        yield C('ext', V, [[IT(M23), IT([[7, 8, 9]])]])
+        yield C('ext', V, [(r12, r12b, r12)])
+        yield C('ext', V, [(Z02, r12)])
+        yield C('ext', V, [(r12, Z02)])
+        yield C('ext', V, [(v3, IT(M23))])
+        yield C('ext', V, [(IT(M23), v3)])
+        yield C('ext', V, [(v3, v2)])
+        yield C('ext', V, [(Z10, r12)])
+        yield C('ext', V, [(IT(4), IT(5))])
+        yield C('ext', V, [(A, v3)], A=([2, 3], F64))
+        yield C('ext', V, [(A, B)], A=([3], F64), B=([3], F32))
+    # the way interpolate.py uses them: numpy stacking of numpy / torch operands, then torch.tensor(...)
+    yield C('ext', 'numpy.vstack', [(mt('reshape', mt('numpy', v3), [1, -1]), IT(M23))])
+    yield C('ext', 'numpy.hstack', [(IT(M23), mt('reshape', mt('numpy', v2), [-1, 1]))])
+    yield C('ext', 'torch.tensor', [xt('numpy.vstack', (mt('reshape', mt('numpy', v3), [1, -1]), IT(M23)))])
+    yield C('ext', 'torch.tensor', [xt('numpy.hstack', (IT(M23), mt('reshape', mt('numpy', v2), [-1, 1])))])
+    yield C('ext', 'torch.hstack', [(xt('torch.hstack', (Z10, r12)), r12b)])
+    for _ in range(6 if tier == 'quick' else 20):
+        n = rng.randint(1, 2)
+        k = rng.randint(2, 3)
+        if n == 1:
+            ops = [IT(_rand_idata(rng, [rng.randint(0, 3)])) if rng.random() < 0.8 else i_zeros(0) for _ in range(k)]
+            fn = rng.choice(['torch.hstack', 'numpy.hstack', 'torch.cat', 'torch.vstack', 'numpy.vstack'])
+            if fn.endswith('vstack'):
+                m = rng.randint(1, 3)
+                ops = [IT(_rand_idata(rng, [m])) for _ in range(k)]
+            yield C('ext', fn, [tuple(ops)])
+        else:
+            rows, cols = rng.randint(1, 2), rng.randint(1, 2)
+            fn = rng.choice(['torch.hstack', 'numpy.hstack', 'torch.vstack', 'numpy.vstack', 'torch.concat'])
+            ops = []
+            for _ in range(k):
+                z = rng.random() < 0.25
+                if fn.endswith('vstack'):
+                    ops.append(i_zeros((0, cols)) if z else IT(_rand_idata(rng, [rng.randint(1, 2), cols])))
+                else:
+                    ops.append(i_zeros((rows, 0)) if z else IT(_rand_idata(rng, [rows, rng.randint(1, 2)])))
+            if fn == 'torch.concat':
+                yield C('ext', fn, [tuple(ops), 1])
+            else:
+                yield C('ext', fn, [tuple(ops)])
+
+
+@gen('int.index')
+@finite
+def g_int_index(rng, tier):
+    S = slice
+    X = IT([[1, 2, 3, 4], [5, 6, 7, 8], [9, 10, 11, 12]])
+    sh = [3, 4]
+    # advanced indexing of a float tensor with an integer index tensor
+    yield C('getitem', None, [A, (IT([2, 0]), S(None))], A=(sh, F64))
+    yield C('getitem', None, [A, (S(None), IT([3, 0, 0]))], A=(sh, F64))
+    yield C('getitem', None, [A, (S(None), IT([-1, 1]))], A=(sh, F32))
+    yield C('getitem', None, [A, (IT([2, 0], 'manual32'), S(None))], A=(sh, F64))
+    yield C('getitem', None, [A, (i_arange(2), S(None))], A=(sh, C128))
+    yield C('getitem', None, [A, (S(None), bo('Add', i_arange(2), 1))], A=(sh, F64))
+    yield C('getitem', None, [A, (S(None), xt('torch.kron', i_ones(2), i_arange(2)))], A=(sh, F64))
+    yield C('getitem', None, [A, (IT([[0, 1], [2, 2]]), S(None))], A=(sh, F64))
+    yield C('getitem', None, [A, (S(None), IT([[0], [3]]))], A=(sh, F64))
+    yield C('getitem', None, [A, (IT([3]), S(None))], A=(sh, F64))
+    yield C('getitem', None, [A, (S(None), IT([4]))], A=(sh, F64))
+    yield C('getitem', None, [A, (S(None), IT([-5]))], A=(sh, F64))
+    yield C('getitem', None, [A, (IT(1), S(None))], A=(sh, F64))
+    yield C('getitem', None, [A, (S(None), IT(-1))], A=(sh, F64))
+    yield C('getitem', None, [A, IT(2)], A=(sh, F64))
+    yield C('getitem', None, [A, (S(None), i_zeros(0))], A=(sh, F64))
+    yield C('getitem', None, [A, (S(None), gi(IT(M23), (S(None), 0)))], A=(sh, F64))
+    yield C('getitem', None, [A, (S(None), gi(IT(M23), 1))], A=([3, 7], F64))
+    yield C('getitem', None, [A, (gi(IT([[0, 1, 2], [2, 1, 0]]), (S(None), IT([2, 0]))), S(None))], A=(sh, F64))
+    yield C('getitem', None, [A, (IT([1, 0]), S(None), S(None))], A=([2, 2, 3], F64))
+    yield C('getitem', None, [A, (S(None), S(None), IT([1, 0]))], A=([2, 2, 3], F64))
+    yield C('getitem', None, [A, (S(None), IT([1, 0]), S(None))], A=([2, 2, 3], F64))
+    # ... of an integer tensor
+    yield C('getitem', None, [X, (IT([2, 0]), S(None))])
+    yield C('getitem', None, [X, (S(None), IT([3, 0, 0]))])
+    yield C('getitem', None, [X, (S(None), IT([-1, -4]))])
+    yield C('getitem', None, [X, IT([1, 1])])
+    yield C('getitem', None, [IT([5, 6, 7]), IT([2, 0, 1, 1])])
+    yield C('getitem', None, [IT([5, 6, 7]), IT([[2, 0], [1, 1]])])
+    yield C('getitem', None, [IT([5, 6, 7]), IT(1)])
+    yield C('getitem', None, [X, (S(None), IT([4]))])
+    yield C('getitem', None, [X, (gi(X, (0, S(0, 2))), S(None))])
+    yield C('getitem', None, [X, (S(None), bo('Sub', gi(X, (0, S(0, 3))), 1))])
+    yield C('getitem', None, [mt('numpy', X), (S(None), IT([1, 0]))])
+    yield C('getitem', None, [mt('numpy', X), (mt('numpy', IT([1, 0])), S(None))])
+    # slicing / basic indexing of integer tensors
+    yield C('getitem', None, [IT([5, 6, 7, 8]), S(1, 3)])
+    yield C('getitem', None, [IT([5, 6, 7, 8]), S(None, None, 2)])
+    yield C('getitem', None, [IT([5, 6, 7, 8]), S(None, 2)])
+    yield C('getitem', None, [IT([5, 6, 7, 8]), S(-3, None)])
+    yield C('getitem', None, [IT([5, 6, 7, 8]), S(5, 9)])
+    yield C('getitem', None, [IT([5, 6, 7, 8]), -1])
+    yield C('getitem', None, [IT([5, 6, 7, 8]), 4])
+    yield C('getitem', None, [X, (S(None), 0)])
+    yield C('getitem', None, [X, 1])
+    yield C('getitem', None, [X, (S(1, None), S(None, None, 3))])
+    yield C('getitem', None, [X, (None, S(None), 1)])
+    yield C('getitem', None, [X, (Ellipsis, -1)])
+    yield C('getitem', None, [X, (2, 3)])
+    yield C('getitem', None, [i_arange(5), S(1, 4)])
+    yield C('getitem', None, [xt('torch.kron', i_ones(2), i_arange(3)), S(2, 5)])
+    for _ in range(8 if tier == 'quick' else 24):
+        shape = rshape(rng, 1, 3, sizes=(2, 3, 4), p1=0.1)
+        x = rng.random()
+        if x < 0.35:
+            yield C('getitem', None, [IT(_rand_idata(rng, shape)), _rindex(rng, shape, allow_adv=True, allow_bad=False)])
+        elif x < 0.7:
+            k = rng.randrange(len(shape))
+            idx = [S(None)] * len(shape)
+            idx[k] = IT([rng.randint(-shape[k], shape[k] - 1) for _ in range(rng.randint(1, 3))])
+            yield C('getitem', None, [A, tuple(idx)], A=(shape, rdtype(rng, ints=False)))
+        else:
+            k = rng.randrange(len(shape))
+            idx = [S(None)] * len(shape)
+            idx[k] = IT([rng.randint(-shape[k], shape[k] - 1) for _ in range(rng.randint(1, 3))])
+            yield C('getitem', None, [IT(_rand_idata(rng, shape)), tuple(idx)])
+
+
+@gen('int.setitem')
+@finite
+def g_int_setitem(rng, tier):
+    S = slice
+    yield C('setitem', None, [IT([1, 2, 3]), 1, 7])
+    yield C('setitem', None, [IT([1, 2, 3]), -1, 7])
+    yield C('setitem', None, [IT([1, 2, 3]), 0, -4])
+    yield C('setitem', None, [IT([1, 2, 3]), 3, 7])
+    yield C('setitem', None, [IT([1, 2, 3]), -4, 7])
+    yield C('setitem', None, [IT([1, 2, 3]), 1, IT(9)])
+    yield C('setitem', None, [IT([1, 2, 3]), 1, gi(IT([4, 5, 6]), 2)])
+    yield C('setitem', None, [IT([1, 2, 3]), 1, True])
+    yield C('setitem', None, [IT([1, 2, 3]), 1, 2.5])
+    yield C('setitem', None, [IT([1, 2, 3]), 1, 2.0])
+    yield C('setitem', None, [IT([1, 2, 3]), 1, A], A=([], F64))
+    yield C('setitem', None, [IT([1, 2, 3]), IT(1), 7])
+    yield C('setitem', None, [i_arange(4), 2, 0])
+    yield C('setitem', None, [i_zeros(3), 0, 5])
+    yield C('setitem', None, [IT([1, 2, 3]), S(0, 2), 5])
+    yield C('setitem', None, [IT([1, 2, 3]), S(0, 2), IT([8, 9])])
+    yield C('setitem', None, [IT([1, 2, 3]), S(None), IT([8])])
+    yield C('setitem', None, [IT(M23), (0, 1), 9])
+    yield C('setitem', None, [IT(M23), 1, IT([7, 8, 9])])
+    yield C('setitem', None, [IT(M23), (S(None), 0), 0])
+    yield C('setitem', None, [IT([1, 2, 3], 'manual32'), 1, 7])
+    # the written tensor used afterwards
+    yield C('getitem', None, [A, (S(None), Sub('setitem', None, [IT([0, 1, 2]), 1, 3]))], A=([2, 4], F64))
+    yield C('binop', 'Add', [Sub('setitem', None, [IT([0, 1, 2]), 0, 5]), 1])
+    yield C('ext', 'torch.sort', [Sub('setitem', None, [IT([0, 1, 2]), 0, 5])])
+    for _ in range(4 if tier == 'quick' else 12):
+        n = rng.randint(1, 4)
+        yield C('setitem', None, [IT(_rand_idata(rng, [n])), rng.randint(-n - 1, n), rng.randint(-3, 9)])
+
+
+@gen('tensor(range)')
+@finite
+def g_tensor_range(rng, tier):
+    for n in (0, 1, 3, 5):
+        yield C('ext', 'torch.tensor', [Rng(n)], {'dtype': DT(I64)})
+        yield C('ext', 'torch.tensor', [Rng(n, 'sym')], {'dtype': DT(I64)})
+    yield C('ext', 'torch.tensor', [Rng(3)])
+    yield C('ext', 'torch.tensor', [Rng(3, 'sym')])
+    yield C('ext', 'torch.tensor', [Rng(3)], {'dtype': DT(F64)})
+    yield C('ext', 'torch.tensor', [Rng(3, 'sym')], {'dtype': DT(F64)})
+    yield C('ext', 'torch.tensor', [Rng(3)], {'dtype': DT('int32')})
+    yield C('getitem', None, [A, (S_ALL, xt('torch.tensor', Rng(3), dtype=DT(I64)))], A=([2, 4], F64))
+    yield C('getitem', None, [A, (xt('torch.tensor', Rng(2, 'sym'), dtype=DT(I64)), S_ALL)], A=([2, 4], F64))
+    yield C('getitem', None, [xt('torch.tensor', Rng(4), dtype=DT(I64)), slice(1, 3)])
+    yield C('ext', 'torch.tensor', [[0, 1, 2]], {'dtype': DT(I64)})
+    yield C('ext', 'torch.tensor', [(0, 1, 2)], {'dtype': DT(I64)})
+    yield C('ext', 'torch.tensor', [IT([1, 2])])
+    yield C('ext', 'torch.tensor', [mt('numpy', IT(M23))])
+    yield C('ext', 'torch.tensor', [mt('numpy', IT(M23))], {'dtype': DT(F64)})
+
+
+S_ALL = slice(None)
+UR = 'numpy.unravel_index'
+
+
+@gen('unravel_index')
+@finite
+def g_unravel(rng, tier):
+    yield C('ext', UR, [5, (2, 3)])
+    yield C('ext', UR, [0, (2, 3)])
+    yield C('ext', UR, [5, [2, 3]])
+    yield C('ext', UR, [6, (2, 3)])
+    yield C('ext', UR, [-1, (2, 3)])
+    yield C('ext', UR, [7, (2, 3, 4)])
+    yield C('ext', UR, [23, (2, 3, 4)])
+    yield C('ext', UR, [3, (4,)])
+    yield C('ext', UR, [4, (4,)])
+    yield C('ext', UR, [0, (1, 1)])
+    yield C('ext', UR, [IT(5), (2, 3)])
+    yield C('ext', UR, [IT(6), (2, 3)])
+    yield C('ext', UR, [mt('numpy', IT(4)), (2, 3)])
+    yield C('ext', UR, [IT(5), Sub('attr', 'shape', [A])], A=([2, 3], F64))
+    yield C('ext', UR, [gi(IT([4, 1]), 0), Sub('attr', 'shape', [A])], A=([2, 3], F64))
+    yield C('ext', UR, [Sub('method', 'topk', [mt('flatten', A), 1], pick=1), Sub('attr', 'shape', [A])], A=([2, 3], F64))
+    yield C('ext', UR, [gi(Sub('method', 'topk', [mt('flatten', A), 1], pick=1), 0), Sub('attr', 'shape', [A])], A=([2, 3], F64))
+    yield C('ext', UR, [IT([5, 0, 3]), (2, 3)])
+    yield C('ext', UR, [IT([5, 0, 6]), (2, 3)])
+    yield C('ext', UR, [IT([5, -1]), (2, 3)])
+    yield C('ext', UR, [mt('numpy', IT([5, 0, 3])), (2, 3)])
+    yield C('ext', UR, [mt('numpy', IT([5, 0, 3])), [2, 3]])
+    yield C('ext', UR, [IT([7, 23, 0, 12]), (2, 3, 4)])
+    yield C('ext', UR, [gi(IT([7, 23, 0, 12]), slice(None, 2)), (4, 6)])
+    yield C('ext', UR, [i_arange(6), (3, 2)])
+    yield C('ext', UR, [i_zeros(0), (3, 2)])
+    yield C('ext', UR, [IT([[1, 2], [3, 4]]), (3, 2)])
+    yield C('ext', UR, [IT([1, 2]), (3,)])
+    yield C('ext', UR, [2.0, (2, 3)])
+    yield C('ext', UR, [A, (2, 3)], A=([2], F64))
+    # element of the result used as an index / reshaped (interpolate.py: tmp[1].reshape([1, -1]), Idx[:, tmp[0]])
+    yield C('method', 'reshape', [Sub('ext', UR, [mt('numpy', IT([5, 0, 3])), (2, 3)], pick=1), [1, -1]])
+    yield C('getitem', None, [A, (S_ALL, Sub('ext', UR, [IT([5, 0, 3]), (2, 3)], pick=0))], A=([3, 2], F64))
+    yield C('getitem', None, [IT(M23), (S_ALL, Sub('ext', UR, [IT([5, 0, 3]), (2, 3)], pick=1))])
+    yield C('ext', 'numpy.vstack', [(mt('reshape', Sub('ext', UR, [IT([5, 0, 3]), (2, 3)], pick=1), [1, -1]),
+                                     gi(IT(M23), (S_ALL, Sub('ext', UR, [IT([5, 0, 3]), (2, 3)], pick=0))))])
+    for _ in range(6 if tier == 'quick' else 20):
+        shape = tuple(rng.choice([1, 2, 3, 4]) for _ in range(rng.randint(1, 3)))
+        tot = prod(shape)
+        if rng.random() < 0.4:
+            v = rng.randint(0, tot - 1) if rng.random() < 0.8 else rng.choice([tot, -1, tot + 3])
+            yield C('ext', UR, [rng.choice([v, IT(v)]), shape])
+        else:
+            vs = [rng.randint(0, tot - 1) for _ in range(rng.randint(1, 4))]
+            if rng.random() < 0.15:
+                vs[rng.randrange(len(vs))] = rng.choice([tot, -1])
+            yield C('ext', UR, [rng.choice([IT(vs), mt('numpy', IT(vs))]), shape])
+
+
+@gen('sort/topk/outer')
+@finite
+def g_sort(rng, tier):
+    yield C('ext', 'torch.sort', [A], A=([4], F64))
+    yield C('ext', 'torch.sort', [A], A=([1], F32))
+    yield C('ext', 'torch.sort', [A], A=([0], F64))
+    yield C('ext', 'torch.sort', [IT([3, 1, 2])])
+    yield C('ext', 'torch.sort', [IT([3, 1, 2])], {'descending': True})
+    yield C('ext', 'torch.sort', [i_arange(3)])
+    yield C('ext', 'torch.sort', [IT([2, 2, 0, 5])])
+    yield C('getitem', None, [Sub('ext', 'torch.sort', [IT([3, 1, 2])]), 0])
+    yield C('getitem', None, [A, (S_ALL, Sub('ext', 'torch.sort', [IT([3, 1, 2])], pick=0))], A=([2, 4], F64))
+    yield C('getitem', None, [A, (Sub('ext', 'torch.sort', [B], pick=1), S_ALL)], A=([3, 2], F64), B=([3], F64))
+    yield C('ext', 'torch.sort', [A], A=([2, 3], F64))
+    yield C('ext', 'torch.sort', [A], A=([], F64))
+    yield C('method', 'topk', [A, 1], A=([4], F64))
+    yield C('method', 'topk', [A, 1], A=([1], F32))
+    yield C('method', 'topk', [A, 2], A=([4], F64))
+    yield C('method', 'topk', [A, 0], A=([4], F64))
+    yield C('method', 'topk', [A, 5], A=([4], F64))
+    yield C('method', 'topk', [A, 1], A=([0], F64))
+    yield C('method', 'topk', [A], {'k': 1}, A=([3], F64))
+    yield C('method', 'topk', [IT([3, 9, 2]), 1])
+    yield C('method', 'topk', [mt('flatten', A), 1], A=([2, 3], F64))
+    yield C('method', 'topk', [A, 1], A=([2, 3], F64))
+    yield C('method', 'topk', [A, 1], A=([3], C128))
+    yield C('ext', 'torch.outer', [A, B], A=([2], F64), B=([3], F64))
+    yield C('ext', 'torch.outer', [A, B], A=([2], F32), B=([3], F64))
+    yield C('ext', 'torch.outer', [A, B], A=([2], F64), B=([3], C128))
+    yield C('ext', 'torch.outer', [A, B], A=([1], F64), B=([1], F64))
+    yield C('ext', 'torch.outer', [A, B], A=([2, 1], F64), B=([3], F64))
+    yield C('ext', 'torch.outer', [A, B], A=([], F64), B=([3], F64))
+    yield C('ext', 'torch.outer', [A, B], A=([0], F64), B=([3], F64))
+    yield C('ext', 'torch.outer', [A, IT([1, 2])], A=([2], F64))
+    yield C('ext', 'torch.outer', [IT([1, 2]), IT([3, 4, 5])])
+    yield C('ext', 'torch.outer', [gi(A, (S_ALL, 1)), bo('Sub', gi(A, 0), gi(A, (1, S_ALL)))], A=([3, 3], F64))
+    yield C('ext', 'torch.outer', [A, 2.0], A=([2], F64))
+    for _ in range(4 if tier == 'quick' else 12):
+        n = rng.randint(1, 5)
+        dt = rng.choice([F64, F32])
+        x = rng.random()
+        if x < 0.4:
+            yield C('ext', 'torch.sort', [A], A=([n], dt))
+        elif x < 0.7:
+            yield C('method', 'topk', [A, rng.randint(1, n + 1)], A=([n], dt))
+        else:
+            yield C('ext', 'torch.outer', [A, B], A=([n], dt), B=([rng.randint(1, 3)], rng.choice([F64, F32, C128])))
+
+
+LUF, LUU = 'torch.linalg.lu_factor', 'torch.lu_unpack'
+
+
+def _perm_vec(a, m, dtype):
+    """(P.t() @ reshape(arange(m, dtype=P.dtype), [-1, 1]))  with P from lu_unpack(*lu_factor(a))"""
+    P = Sub('ext', LUU, [Sub('ext', LUF, [a], star=True)], pick=0)
+    return ('binop', 'MatMult', [mt('t', P), xt('torch.reshape', xt('torch.arange', m, dtype=DT(dtype)), [-1, 1])])
+
+
+@gen('lu')
+@finite
+def g_lu(rng, tier):
+    for shape, dt in (([3, 3], F64), ([2, 3], F64), ([3, 2], F64), ([1, 1], F64), ([3, 3], F32), ([2, 2], C128), ([1, 3], F64), ([4, 1], F64)):
+        yield C('ext', LUF, [A], A=(shape, dt))
+        yield C('ext', LUU, [Sub('ext', LUF, [A], star=True)], A=(shape, dt))
+        yield C(*_perm_vec(A, shape[0], dt if dt != C128 else C128), A=(shape, dt))
+    yield C('ext', LUF, [A], A=([3], F64))
+    yield C('ext', LUF, [A], A=([], F64))
+    yield C('ext', LUF, [A], A=([2, 2, 2], F64))
+    yield C('ext', LUF, [A], A=([2, 2], I64))
+    yield C('ext', LUF, [A], A=([0, 0], F64))
+    yield C('ext', LUF, [IT([[1, 2], [3, 4]])])
+    yield C('ext', LUU, [A, IT([1, 2], 'manual32')], A=([2, 2], F64))
+    yield C('ext', LUU, [A, IT([1, 2])], A=([2, 2], F64))
+    yield C('ext', LUU, [A, IT([1], 'manual32')], A=([2, 2], F64))
+    yield C('ext', LUU, [A, IT([2, 2, 3], 'manual32')], A=([3, 3], F64))
+    # P from lu_unpack: transposed / used in a product with an integer-valued column (dtype of P)
+    yield C('method', 't', [Sub('ext', LUU, [Sub('ext', LUF, [A], star=True)], pick=0)], A=([3, 3], F64))
+    yield C('binop', 'MatMult', [Sub('ext', LUU, [Sub('ext', LUF, [A], star=True)], pick=0),
+                                 xt('torch.reshape', xt('torch.arange', 3, dtype=DT(F64)), [-1, 1])], A=([3, 3], F64))
+    yield C('binop', 'MatMult', [mt('t', Sub('ext', LUU, [Sub('ext', LUF, [A], star=True)], pick=0)),
+                                 xt('torch.reshape', xt('torch.arange', 3), [-1, 1])], A=([3, 3], F64))
+    yield C('binop', 'MatMult', [mt('t', Sub('ext', LUU, [Sub('ext', LUF, [A], star=True)], pick=0)),
+                                 xt('torch.reshape', xt('torch.arange', 6, dtype=DT(F64)), [3, 2])], A=([3, 3], F64))
+    yield C('binop', 'MatMult', [mt('t', Sub('ext', LUU, [Sub('ext', LUF, [A], star=True)], pick=0)), B], A=([3, 3], F64), B=([3, 2], F64))
+    for _ in range(4 if tier == 'quick' else 12):
+        m, n = rng.randint(1, 4), rng.randint(1, 4)
+        dt = rng.choice([F64, F64, F32, C128])
+        x = rng.random()
+        if x < 0.3:
+            yield C('ext', LUF, [A], A=([m, n], dt))
+        elif x < 0.6:
+            yield C('ext', LUU, [Sub('ext', LUF, [A], star=True)], A=([m, n], dt))
+        else:
+            yield C(*_perm_vec(A, m, dt), A=([m, n], dt))
+
+
+@gen('as_tensor/finfo/promote_types')
+@finite
+def g_as_tensor(rng, tier):
+    AT = 'torch.as_tensor'
+    yield C('ext', AT, [2.5])
+    yield C('ext', AT, [0.1])
+    yield C('ext', AT, [3])
+    yield C('ext', AT, [True])
+    yield C('ext', AT, [1 + 2j])
+    yield C('ext', AT, [[1.5, 2.5]])
+    yield C('ext', AT, [[1, 2]])
+    yield C('ext', AT, [0.1], {'dtype': DT(F64)})
+    yield C('ext', AT, [0.1, DT(F64)])
+    yield C('ext', AT, [2.5], {'dtype': DT(F64), 'device': PyNone()})
+    yield C('ext', AT, [A], A=([2, 3], F64))
+    yield C('ext', AT, [A], A=([2], C128))
+    yield C('ext', AT, [A], A=([], F32))
+    yield C('ext', AT, [A], {'dtype': DT(F64)}, A=([2, 3], F64))
+    yield C('ext', AT, [A], {'dtype': DT(F32)}, A=([2, 3], F64))
+    yield C('ext', AT, [A], {'dtype': DT(C128)}, A=([2, 3], F64))
+    yield C('ext', AT, [TRef('A', [('permute', [1, 0])])], A=([2, 3], F64))
+    yield C('ext', AT, [mt('numpy', A)], A=([2, 3], F64))
+    yield C('ext', AT, [mt('numpy', A)], {'dtype': DT(F32)}, A=([2, 3], F64))
+    yield C('ext', AT, [IT([1, 2])])
+    yield C('ext', AT, [PyNone()])
+    yield C('binop', 'Mult', [A, xt(AT, 0.5)], A=([3], F64))
+    yield C('binop', 'Div', [A, xt(AT, 3.0)], A=([3], F64))
+    dts = ['bool', 'int32', 'int64', 'float16', 'float32', 'float64', 'complex64', 'complex128']
+    for a in dts:
+        for b in dts:
+            yield C('ext', 'torch.promote_types', [DT(a), DT(b)])
+    yield C('ext', 'torch.promote_types', [DT(F64), Sub('attr', 'dtype', [A])], A=([2], C128))
+    for fn in ('torch.finfo', 'numpy.finfo'):
+        for dt in (F64, F32, 'float16', C128, 'complex64', I64):
+            if fn == 'numpy.finfo' and dt == 'float16':
+                continue
+            for attr in ('eps', 'tiny', 'max', 'min') + (('smallest_normal',) if dt == F64 else ()):
+                arg = DT(dt) if fn == 'torch.finfo' else NPDT(dt)
+                yield C('attr', attr, [Sub('ext', fn, [arg])])
+    yield C('attr', 'eps', [Sub('ext', 'numpy.finfo', [Sub('attr', 'dtype', [mt('numpy', A)])])], A=([2], F32))
+    yield C('attr', 'eps', [Sub('ext', 'torch.finfo', [Sub('attr', 'dtype', [A])])], A=([2], F32))
+    yield C('attr', 'eps', [Sub('ext', 'torch.finfo', [])])
+    yield C('attr', 'eps', [Sub('ext', 'numpy.finfo', [NPDT('float64')])])
+    yield C('attr', 'resolution', [Sub('ext', 'torch.finfo', [DT(F64)])])
+    yield C('attr', 'epsilon', [Sub('ext', 'torch.finfo', [DT(F64)])])
+
+
+@gen('index.True/setitem.Ellipsis')
+@finite
+def g_true_index(rng, tier):
+    S = slice
+    yield C('getitem', None, [A, (True, 0)], A=([3], F64))
+    yield C('getitem', None, [A, (True, 0)], A=([2, 3], F64))
+    yield C('getitem', None, [A, (True, S(None))], A=([3], F64))
+    yield C('getitem', None, [A, (True, S(0, 2), 1)], A=([2, 3], F64))
+    yield C('getitem', None, [A, (0, True)], A=([2, 3], F64))
+    yield C('getitem', None, [A, (True,)], A=([3], F64))
+    yield C('getitem', None, [A, True], A=([3], F64))
+    yield C('getitem', None, [A, True], A=([], F64))
+    yield C('getitem', None, [A, (True, True)], A=([3], F64))
+    yield C('getitem', None, [A, (True, Ellipsis)], A=([2, 3], F64))
+    yield C('getitem', None, [A, (True, None)], A=([3], F64))
+    yield C('getitem', None, [A, (True, 3)], A=([3], F64))
+    yield C('getitem', None, [A, (True, 0, 0)], A=([3], F64))
+    yield C('getitem', None, [A, (True, IT([1, 0]))], A=([3], F64))
+    yield C('getitem', None, [IT([5, 6, 7]), (True, 0)])
+    yield C('getitem', None, [A, False], A=([3], F64))
+    yield C('getitem', None, [A, (False, 0)], A=([3], F64))
+    # setitem with an Ellipsis
+    yield C('setitem', None, [A, (S(None, 2), Ellipsis, S(None, 1)), V], A=([3, 2, 2], F64), V=([2, 2, 1], F64))
+    yield C('setitem', None, [A, (S(None, 1), Ellipsis, S(None, 2)), V], A=([2, 3], F64), V=([1, 2], F64))
+    yield C('setitem', None, [A, (S(None, 2), Ellipsis, S(None, 2)), V], A=([2, 2, 3, 3], F64), V=([2, 2, 3, 2], F64))
+    yield C('setitem', None, [A, (Ellipsis, S(1, 3)), V], A=([2, 4], F64), V=([2, 2], F64))
+    yield C('setitem', None, [A, (Ellipsis, S(1, 3)), V], A=([2, 4], F64), V=([2], F64))
+    yield C('setitem', None, [A, (Ellipsis, 0), 1.5], A=([2, 3], F32))
+    yield C('setitem', None, [A, (0, Ellipsis), V], A=([2, 3], F64), V=([3], F64))
+    yield C('setitem', None, [A, Ellipsis, V], A=([2, 3], F64), V=([3], F64))
+    yield C('setitem', None, [A, (Ellipsis,), 0.0], A=([2, 3], F64))
+    yield C('setitem', None, [A, (S(None, 1), Ellipsis), V], A=([2, 3], F64), V=([1, 3], F64))
+    yield C('setitem', None, [A, (S(None, 1), Ellipsis, S(None, 2)), V], A=([2, 3], F64), V=([2, 2], F64))
+    yield C('setitem', None, [A, (0, 1, Ellipsis), 2.0], A=([2, 3], F64))
+    yield C('setitem', None, [A, (0, 1, 0, Ellipsis), 2.0], A=([2, 3], F64))
+    yield C('setitem', None, [A, (Ellipsis, 0, Ellipsis), 2.0], A=([2, 3], F64))
+    yield C('setitem', None, [A, (S(None, 1), Ellipsis, S(None, 1)), V], A=([2], F64), V=([1], F64))
+    yield C('setitem', None, [A, (None, Ellipsis), V], A=([2, 3], F64), V=([3], F64))
+    for _ in range(6 if tier == 'quick' else 20):
+        shape = rshape(rng, 1, 4, sizes=(2, 3), p1=0.1)
+        n = len(shape)
+        k1 = rng.randint(0, n)
+        k2 = rng.randint(0, n - k1)
+        head = [slice(None, rng.randint(1, shape[k])) for k in range(k1)]
+        tail = [slice(None, rng.randint(1, shape[n - k2 + k])) for k in range(k2)]
+        vs = [len(range(*s.indices(shape[k]))) for k, s in enumerate(head)] + shape[k1:n - k2] + \
+             [len(range(*s.indices(shape[n - k2 + k]))) for k, s in enumerate(tail)]
+        if rng.random() < 0.2 and vs:
+            vs[rng.randrange(len(vs))] += 1
+        dt = rng.choice([F64, F32, C128])
+        yield C('setitem', None, [A, tuple(head) + (Ellipsis,) + tuple(tail), V], A=(shape, dt), V=(vs, dt))
+
+
+@gen('complex->real')
+@finite
+def g_lossy(rng, tier):
+    S = slice
+    yield C('setitem', None, [A, (S(None), S(0, 2)), V], A=([2, 4], F64), V=([2, 2], C128))
+    yield C('setitem', None, [A, (0, 0), 1 + 2j], A=([2, 2], F64))
+    yield C('setitem', None, [A, 0, V], A=([2, 2], F32), V=([2], C128))
+    yield C('setitem', None, [A, (0, 1), V], A=([2, 2], F64), V=([], C128))
+    yield C('setitem', None, [A, Ellipsis, V], A=([2, 2], F64), V=([2, 2], 'complex64'))
+    yield C('setitem', None, [A, (S(None), S(0, 3)), V], A=([2, 4], F64), V=([2, 2], C128))
+    yield C('setitem', None, [A, (2, 0), 1 + 2j], A=([2, 2], F64))
+    yield C('setitem', None, [A, (0, 0, 0), 1 + 2j], A=([2, 2], F64))
+    yield C('setitem', None, [A, 0, V], A=([2, 2], I64), V=([2], C128))
+    yield C('setitem', None, [A, 0, 2.5], A=([2, 2], I64))
+    yield C('setitem', None, [A, 0, 1 + 2j], A=([2, 2], C128))
+    # the dtype after the lossy write, and a later use
+    yield C('attr', 'dtype', [Sub('setitem', None, [A, (0, 0), 1 + 2j])], A=([2, 2], F64))
+    yield C('binop', 'Mult', [Sub('setitem', None, [A, (0, 0), 1 + 2j]), 2.0], A=([2, 2], F32))
+    yield C('binop', 'Add', [Sub('setitem', None, [A, 0, V]), V], A=([2, 2], F64), V=([2], C128))
+    yield C('method', 'to', [A, DT(F64)], A=([2, 3], C128))
+    yield C('method', 'to', [A, DT(F32)], A=([2, 3], C128))
+    yield C('method', 'to', [A, DT(F64)], A=([], 'complex64'))
+    yield C('method', 'to', [A], {'dtype': DT(F64)}, A=([2], C128))
+    yield C('method', 'to', [A, DT(I64)], A=([2], C128))
+    yield C('method', 'double', [A], A=([2], C128))
+    yield C('method', 'float', [A], A=([2], C128))
+    yield C('method', 'to', [A, DT('complex64')], A=([2], C128))
+    yield C('method', 'to', [A, DT(C128)], A=([2], C128))
+    yield C('method', 'to', [A, DT(I64)], A=([2], F64))
+    yield C('binop', 'Mult', [mt('to', A, DT(F64)), 2.0], A=([2], C128))
+    yield C('binop', 'MatMult', [mt('to', A, DT(F64)), B], A=([2, 2], C128), B=([2, 2], F64))
+    yield C('method', 'numpy', [mt('to', A, DT(F64))], A=([2], C128))
+    yield C('ext', 'torch.tensor', [A], {'dtype': DT(F64)}, A=([2], C128))
+    yield C('ext', 'torch.as_tensor', [A], {'dtype': DT(F64)}, A=([2], C128))
+
+
+@gen('conj bit')
+@finite
+def g_conjbit(rng, tier):
+    S = slice
+    cj = xt('torch.conj', A)
+    yield C('method', 'numpy', [cj], A=([2, 3], C128))
+    yield C('method', 'numpy', [mt('conj', A)], A=([3], 'complex64'))
+    yield C('method', 'numpy', [cj], A=([], C128))
+    yield C('method', 'numpy', [cj], A=([2, 3], F64))
+    yield C('method', 'numpy', [gi(cj, 0)], A=([2, 3], C128))
+    yield C('method', 'numpy', [gi(cj, (S(None), S(0, 2)))], A=([2, 3], C128))
+    yield C('method', 'numpy', [gi(cj, (0, 1))], A=([2, 3], C128))
+    yield C('method', 'numpy', [gi(cj, None)], A=([3], C128))
+    yield C('method', 'numpy', [gi(cj, Ellipsis)], A=([3], C128))
+    yield C('method', 'numpy', [xt('torch.reshape', cj, [3, 2])], A=([2, 3], C128))
+    yield C('method', 'numpy', [mt('reshape', cj, [-1])], A=([2, 3], C128))
+    yield C('method', 'numpy', [mt('flatten', cj)], A=([2, 3], C128))
+    yield C('method', 'numpy', [mt('permute', cj, [1, 0])], A=([2, 3], C128))
+    yield C('method', 'numpy', [mt('t', cj)], A=([2, 3], C128))
+    yield C('method', 'numpy', [mt('squeeze', cj)], A=([1, 3], C128))
+    yield C('method', 'numpy', [mt('unsqueeze', cj, 0)], A=([3], C128))
+    yield C('method', 'numpy', [mt('detach', cj)], A=([3], C128))
+    yield C('method', 'numpy', [mt('cpu', cj)], A=([3], C128))
+    yield C('method', 'numpy', [mt('contiguous', cj)], A=([3], C128))
+    yield C('method', 'numpy', [mt('contiguous', mt('permute', cj, [1, 0]))], A=([2, 3], C128))
+    yield C('method', 'numpy', [xt('torch.reshape', mt('permute', cj, [1, 0]), [6])], A=([2, 3], C128))
+    yield C('method', 'numpy', [xt('torch.diagonal', cj)], A=([3, 3], C128))
+    yield C('method', 'numpy', [xt('torch.diag', cj)], A=([3, 3], C128))
+    yield C('method', 'numpy', [xt('torch.diag', cj)], A=([3], C128))
+    yield C('method', 'numpy', [gi(cj, (S(None), IT([1, 0])))], A=([2, 3], C128))
+    yield C('method', 'numpy', [mt('to', cj, DT(C128))], A=([3], C128))
+    yield C('method', 'numpy', [mt('to', cj, DT('complex64'))], A=([3], C128))
+    yield C('method', 'numpy', [mt('resolve_conj', cj)], A=([2, 3], C128))
+    yield C('method', 'numpy', [mt('resolve_conj', gi(cj, 0))], A=([2, 3], C128))
+    yield C('method', 'numpy', [mt('clone', cj)], A=([2, 3], C128))
+    yield C('method', 'numpy', [mt('clone', gi(cj, 0))], A=([2, 3], C128))
+    yield C('method', 'numpy', [xt('torch.conj', cj)], A=([2, 3], C128))
+    yield C('method', 'numpy', [mt('conj', mt('conj', mt('conj', A)))], A=([3], C128))
+    yield C('method', 'numpy', [bo('Mult', cj, 2.0)], A=([3], C128))
+    yield C('method', 'numpy', [bo('Add', cj, A)], A=([3], C128))
+    yield C('method', 'numpy', [Sub('neg', None, [cj])], A=([3], C128))
+    yield C('method', 'numpy', [xt('torch.einsum', 'ij,jk->ik', cj, B)], A=([2, 3], C128), B=([3, 2], C128))
+    yield C('method', 'numpy', [xt('torch.einsum', 'ij->ji', cj)], A=([2, 3], C128))
+    yield C('method', 'numpy', [xt('torch.cat', [cj, cj], 0)], A=([3], C128))
+    yield C('method', 'numpy', [xt('torch.tile', cj, (2,))], A=([3], C128))
+    yield C('method', 'numpy', [xt('torch.nn.functional.pad', cj, (0, 1))], A=([3], C128))
+    yield C('method', 'numpy', [xt('torch.sum', cj, 0)], A=([2, 3], C128))
+    yield C('method', 'numpy', [xt('torch.abs', cj)], A=([3], C128))
+    yield C('method', 'numpy', [xt('torch.kron', cj, B)], A=([2, 2], C128), B=([1, 2], C128))
+    yield C('method', 'numpy', [bo('MatMult', cj, B)], A=([2, 3], C128), B=([3, 2], C128))
+    yield C('method', 'numpy', [mt('resolve_conj', A)], A=([3], C128))
+    yield C('method', 'resolve_conj', [A], A=([3], C128))
+    yield C('method', 'resolve_conj', [A], A=([3], F64))
+    yield C('method', 'resolve_conj', [cj], A=([3], C128))
+    yield C('method', 'numpy', [mt('cpu', mt('resolve_conj', cj))], A=([2, 3], C128))
+    yield C('ext', 'torch.conj', [cj], A=([2, 3], C128))
+    yield C('ext', 'torch.conj', [A], A=([2, 3], F32))
+    yield C('method', 'conj', [A], A=([], F64))
+    yield C('ext', 'torch.conj', [IT([1, 2])])
+    yield C('setitem', None, [B, (S(None), 0), gi(cj, (S(None), 0))], A=([2, 3], C128), B=([2, 2], C128))
+    yield C('inplace', 'Mult', [cj, 2.0], A=([3], C128))
+    yield C('method', 'numpy', [Sub('inplace', 'Mult', [cj, 2.0])], A=([3], C128))
+    yield C('method', 'numpy', [Sub('setitem', None, [cj, 0, 1.0])], A=([3], C128))
+
+
+@gen('predicates')
+@finite
+def g_pred(rng, tier):
+    for dt in ('float64', 'float32', 'float16', 'complex128', 'complex64', 'int64', 'int32', 'bool'):
+        yield C('method', 'is_floating_point', [A], A=([2], dt))
+        yield C('method', 'is_complex', [A], A=([2], dt))
+    yield C('method', 'is_floating_point', [A], A=([], F64))
+    yield C('method', 'is_complex', [xt('torch.conj', A)], A=([2], C128))
+    yield C('method', 'is_floating_point', [xt('torch.abs', A)], A=([2], C128))
+    yield C('method', 'is_complex', [mt('to', A, DT(F64))], A=([2], C128))
+    yield C('method', 'is_floating_point', [IT([1, 2])])
+    yield C('method', 'is_floating_point', [bo('Div', IT([1, 2]), 2)])
+    yield C('method', 'is_floating_point', [mt('numpy', A)], A=([2], F64))
+    yield C('ext', 'torch.is_floating_point', [A], A=([2], F64))
+    yield C('ext', 'torch.is_complex', [A], A=([2], C128))
+    yield C('attr', 'is_cuda', [A], A=([2, 3], F64))
+    yield C('attr', 'is_cuda', [A], A=([], C128))
+    yield C('attr', 'is_cuda', [IT([1, 2])])
+    yield C('attr', 'is_cuda', [xt('torch.conj', A)], A=([2], C128))
+    yield C('attr', 'is_cuda', [mt('cpu', A)], A=([2], F64))
+    yield C('attr', 'is_cuda', [mt('numpy', A)], A=([2], F64))
+    yield C('attr', 'is_cuda', [Sub('ext', 'torch.linalg.qr', [A], pick=0)], A=([3, 2], F64))
+    yield C('attr', 'is_cuda', [Sub('ext', 'torch.linalg.svd', [A], {'full_matrices': False}, pick=1)], A=([3, 2], F64))
+    yield C('attr', 'dtype', [A], A=([2], F32))
+    yield C('attr', 'dtype', [IT([1, 2], 'manual32')])
+    yield C('attr', 'dtype', [mt('numpy', A)], A=([2], F32))
+    yield C('attr', 'is_complex', [Sub('attr', 'dtype', [A])], A=([2], C128))
+    yield C('attr', 'is_complex', [Sub('attr', 'dtype', [A])], A=([2], F64))
+    yield C('attr', 'is_floating_point', [Sub('attr', 'dtype', [A])], A=([2], F64))
+
+
+@gen('single precision')
+@finite
+def g_single(rng, tier):
+    yield C('binop', 'Mult', [A, 0.1], A=([3], F32))
+    yield C('binop', 'Mult', [0.1, A], A=([3], F32))
+    yield C('binop', 'Add', [A, 1e-3], A=([2, 2], F32))
+    yield C('binop', 'Div', [A, 3.0], A=([3], F32))
+    yield C('binop', 'Div', [3.0, A], A=([3], F32, 'nonzero'))
+    yield C('binop', 'Mult', [A, 0.1], A=([], F32))
+    yield C('binop', 'Mult', [A, 2], A=([], F32))
+    yield C('binop', 'Mult', [A, 0.1], A=([3], 'complex64'))
+    yield C('binop', 'Mult', [A, 0.1], A=([3], 'float16'))
+    yield C('binop', 'Mult', [A, B], A=([3], F64), B=([], F32))
+    yield C('binop', 'Mult', [B, A], A=([3], F64), B=([], F32))
+    yield C('binop', 'Div', [A, B], A=([3], F64), B=([], F32, 'nonzero'))
+    yield C('binop', 'Add', [A, B], A=([2, 2], F64), B=([], F32))
+    yield C('binop', 'Mult', [A, B], A=([3], F32), B=([], F64))
+    yield C('binop', 'Mult', [A, B], A=([1], F64), B=([], F32))
+    yield C('binop', 'Mult', [A, B], A=([1], F32), B=([], F64))
+    yield C('binop', 'Mult', [A, B], A=([3], F64), B=([1], F32))
+    yield C('binop', 'Mult', [A, B], A=([], F64), B=([], F32))
+    yield C('binop', 'Mult', [A, B], A=([3], C128), B=([], F32))
+    yield C('binop', 'Mult', [A, B], A=([3], 'complex64'), B=([], F64))
+    yield C('binop', 'Mult', [A, B], A=([3], F32), B=([], C128))
+    yield C('binop', 'Div', [1.0, A], A=([], F32, 'nonzero'))
+    yield C('binop', 'Div', [2.5, A], A=([], F32, 'nonzero'))
+    yield C('binop', 'Div', [1, A], A=([], F32, 'nonzero'))
+    yield C('binop', 'Div', [2.5, A], A=([], F64, 'nonzero'))
+    yield C('binop', 'Div', [2.5, A], A=([], I64, 'nonzero'))
+    yield C('binop', 'Div', [2, A], A=([], I64, 'nonzero'))
+    yield C('binop', 'Mult', [2.5, A], A=([], I64))
+    yield C('binop', 'Sub', [2.5, A], A=([], F32))
+    yield C('binop', 'Div', [A, 2.5], A=([], F32))
+    yield C('binop', 'Div', [1 + 1j, A], A=([], F32, 'nonzero'))
+    yield C('binop', 'Div', [2.5, xt('torch.linalg.norm', A)], A=([3], F32, 'nonzero'))
+    yield C('binop', 'Mult', [B, bo('Div', 2.5, xt('torch.linalg.norm', A))], A=([3], F32, 'nonzero'), B=([2], F64))
+    yield C('binop', 'Mult', [B, xt('torch.as_tensor', 2.5)], A=([3], F32), B=([2], F64))
+    yield C('binop', 'Mult', [B, xt('torch.tensor', 2.5)], B=([2], F64))
+    yield C('binop', 'Mult', [B, xt('torch.tensor', 2.5, dtype=DT(F64))], B=([2], F32))
+    yield C('binop', 'Mult', [B, gi(A, 0)], A=([3], F32), B=([2], F64))
+    yield C('binop', 'Mult', [B, xt('torch.sum', A)], A=([3], F32), B=([2], F64))
+    yield C('inplace', 'Mult', [A, B], A=([3], F64), B=([], F32))
+    yield C('inplace', 'Mult', [A, B], A=([3], F32), B=([], F64))
+    yield C('inplace', 'Div', [A, 3.0], A=([3], F32))
+    yield C('ext', 'torch.sqrt', [A], A=([], F32))
+    yield C('binop', 'Pow', [A, 2], A=([], F32))
+    yield C('binop', 'Pow', [A, 0.5], A=([2], F32))
+    for _ in range(8 if tier == 'quick' else 24):
+        op = rng.choice(['Add', 'Sub', 'Mult', 'Div'])
+        da = rng.choice([F32, F64, 'complex64', C128, I64])
+        db = rng.choice([F32, F64, 'complex64', C128, I64])
+        sa = rng.choice([[], [], [2], [1], [2, 2]])
+        x = rng.random()
+        if x < 0.6:
+            sb = rng.choice([[], [], [2], [1]])
+            yield C('binop', op, [A, B], A=(sa, da), B=(sb, db, 'nonzero'))
+        elif x < 0.8:
+            yield C('binop', op, [A, rng.choice([2, 0.5, 2.0])], A=(sa, da))
+        else:
+            yield C('binop', op, [rng.choice([2, 0.5, 2.0]), A], A=(sa, da, 'nonzero'))
 
 
 # @@GENERATORS@@
